@@ -409,11 +409,54 @@ Proof. induction a as [|x a IH]; intro H; [constructor|]. inversion H; subst. co
    and no tmp file is left — for every size limit, buffer capacity > 0, row sequence and initial folder content *)
 Definition fresh_writers (ws:list wr) : Prop := Forall (fun w => disk (w_bw w) = 0 /\ buf (w_bw w) = [] /\ w_logical w = []) ws.
 
+(* ---------- what the final files contain: exactly the rows handed to each writer, in order ---------- *)
+Fixpoint app_at (i:nat) (d:bytes) (ls:list bytes) : list bytes :=
+  match ls, i with [], _ => [] | x :: r, O => (x ++ d) :: r | x :: r, S j => x :: app_at j d r end.
+Lemma write_to_logical cap L : forall ws i d ops ws' ok, write_to cap L i d ws = (ops, ws', ok) -> map w_logical ws' = app_at i d (map w_logical ws).
+Proof.
+  induction ws as [|w r IH]; intros i d ops ws' ok H; [destruct i; inversion H; reflexivity|].
+  destruct i as [|j]; cbn [write_to] in H.
+  - destruct (bw_write_all cap L (w_bw w) d) as [[o b] k]. inversion H; subst. reflexivity.
+  - destruct (write_to cap L j d r) as [[o r'] k] eqn:E. inversion H; subst. cbn [map app_at]. f_equal. eapply IH; eauto.
+Qed.
+Lemma run_writes_logical cap L : forall rows ws ops ws', run_writes cap L rows ws = (ops, ws', true) ->
+  map w_logical ws' = fold_left (fun ls r => app_at (fst r) (snd r) ls) rows (map w_logical ws).
+Proof.
+  induction rows as [|[i d] r IH]; intros ws ops ws' H; cbn [run_writes] in H; [inversion H; reflexivity|].
+  destruct (write_to cap L i d ws) as [[o ws1] ok] eqn:E. destruct ok; [|inversion H].
+  destruct (run_writes cap L r ws1) as [[o2 ws2] ok2] eqn:E2. inversion H; subst. cbn [fold_left fst snd].
+  rewrite <- (write_to_logical cap L ws i d o ws1 true E). eapply IH; eauto.
+Qed.
+Lemma flush_all_logical L : forall ws ops ws' ok, flush_all L ws = (ops, ws', ok) -> map w_logical ws' = map w_logical ws.
+Proof.
+  induction ws as [|w r IH]; intros ops ws' ok H; cbn [flush_all] in H; [inversion H; reflexivity|].
+  destruct (flush_buf L (w_bw w)) as [[o b] k]. destruct k.
+  - destruct (flush_all L r) as [[o2 r'] k2] eqn:E. inversion H; subst. cbn [map w_logical]. f_equal. eapply IH; eauto.
+  - inversion H; subst. reflexivity.
+Qed.
+Definition data_for (i:nat) (rows:list (nat * bytes)) : bytes := concat (map snd (filter (fun r => Nat.eqb (fst r) i) rows)).
+Lemma nth_app_at i j d ls : (i < length ls)%nat -> nth j (app_at i d ls) [] = if Nat.eqb i j then nth j ls [] ++ d else nth j ls [].
+Proof.
+  revert i j. induction ls as [|x r IH]; intros [|i] [|j] H; cbn in *; try lia; try reflexivity. apply IH. lia.
+Qed.
+Lemma app_at_length i d ls : length (app_at i d ls) = length ls.
+Proof. revert i. induction ls as [|x r IH]; intros [|i]; cbn; auto. Qed.
+Lemma fold_app_at rows : forall ls j, (forall r, In r rows -> (fst r < length ls)%nat) ->
+  nth j (fold_left (fun ls r => app_at (fst r) (snd r) ls) rows ls) [] = nth j ls [] ++ data_for j rows.
+Proof.
+  induction rows as [|[i d] r IH]; intros ls j Hb; [cbn; now rewrite app_nil_r|].
+  cbn [fold_left fst snd]. rewrite IH by (intros r0 Hr0; rewrite app_at_length; apply Hb; now right).
+  rewrite nth_app_at by (apply (Hb (i, d)); now left). unfold data_for. cbn [filter fst]. destruct (Nat.eqb_spec i j) as [Eij|Hne].
+  - cbn [map snd concat]. now rewrite app_assoc.
+  - reflexivity.
+Qed.
+
 Theorem success_complete cap L ws rows trace s : (0 < cap)%nat ->
   run cap L ws rows = (trace, 0) -> NoDup (tmps ws ++ finals ws) -> fresh_writers ws ->
   exists ws', tmps ws' = tmps ws /\ finals ws' = finals ws /\
     Forall (fun w => fs_get (w_final w) (apply_trace s trace) = Some (w_logical w) /\ fs_get (tmp (w_bw w)) (apply_trace s trace) = None) ws'
-    /\ (forall g, ~ In g (tmps ws ++ finals ws) -> fs_get g (apply_trace s trace) = fs_get g s).
+    /\ (forall g, ~ In g (tmps ws ++ finals ws) -> fs_get g (apply_trace s trace) = fs_get g s)
+    /\ map w_logical ws' = fold_left (fun ls r => app_at (fst r) (snd r) ls) rows (map w_logical ws).
 Proof.
   intros Hcap H Hnd Hfresh. unfold run in H.
   assert (Hnd_t : NoDup (tmps ws)) by (apply nodup_app_l in Hnd; exact Hnd).
@@ -433,13 +476,37 @@ Proof.
   exists ws2. split; [congruence|]. split; [congruence|].
   assert (Etrace : apply_trace s (creates ws ++ o1 ++ o2 ++ renames ws2) = apply_trace s2 (renames ws2)).
   { unfold s2, s0, apply_trace. now rewrite !fold_left_app. }
-  rewrite Etrace. split; [exact R1|].
+  rewrite Etrace. split; [exact R1|]. split; [|rewrite (flush_all_logical L ws1 o2 ws2 true E2); exact (run_writes_logical cap L rows ws o1 ws1 E1)].
   intros g Hg. rewrite R2 by (now rewrite Ht2, Ht1, Hf2, Hf1).
   assert (Hgt : ~ In g (tmps ws)) by (intro Hin; apply Hg; apply in_app_iff; now left).
   unfold s2. rewrite F2 by (now rewrite Ht1).
   rewrite (apply_appends_frame (tmps ws) o1) by assumption. apply C2. exact Hgt.
 Qed.
 Print Assumptions success_complete.
+
+(* C10, success half in full: exit 0 => for every writer the final-named file holds exactly the concatenation of the rows addressed to it
+   (hence the same bytes as an undisturbed run), no tmp file is left - for any size limit, capacity, initial folder *)
+Theorem success_content cap L ws rows trace s : (0 < cap)%nat ->
+  run cap L ws rows = (trace, 0) -> NoDup (tmps ws ++ finals ws) -> fresh_writers ws -> (forall r, In r rows -> (fst r < length ws)%nat) ->
+  forall j, (j < length ws)%nat ->
+    fs_get (nth j (finals ws) 0) (apply_trace s trace) = Some (data_for j rows) /\ fs_get (nth j (tmps ws) 0) (apply_trace s trace) = None.
+Proof.
+  intros Hcap H Hnd Hfresh Hb j Hj.
+  destruct (success_complete cap L ws rows trace s Hcap H Hnd Hfresh) as (ws' & Ht & Hf & HF & _ & HL).
+  assert (Hlen' : length ws' = length ws) by (rewrite <- (map_length w_final ws'), <- (map_length w_final ws); unfold finals in Hf; now rewrite Hf).
+  set (dw := {| w_bw := {| tmp := 0; disk := 0; buf := [] |}; w_final := 0; w_logical := [] |}).
+  pose proof (proj1 (Forall_forall _ _) HF (nth j ws' dw) ltac:(apply nth_In; lia)) as [Hfin Htmp].
+  assert (Nf : nth j (finals ws) 0 = w_final (nth j ws' dw)) by (rewrite <- Hf; unfold finals; apply (map_nth w_final ws' dw j)).
+  assert (Nt : nth j (tmps ws) 0 = tmp (w_bw (nth j ws' dw))) by (rewrite <- Ht; unfold tmps; apply (map_nth (fun w => tmp (w_bw w)) ws' dw j)).
+  rewrite Nf, Nt. split; [|exact Htmp]. rewrite Hfin. f_equal.
+  change (w_logical (nth j ws' dw)) with (w_logical (nth j ws' dw)). rewrite <- (map_nth w_logical ws' dw j). cbn [w_logical dw]. rewrite HL.
+  rewrite fold_app_at by (intros r Hr; rewrite map_length; now apply Hb).
+  assert (E0 : nth j (map w_logical ws) [] = []).
+  { change (@nil N) with (w_logical dw) at 1. rewrite (map_nth w_logical ws dw j).
+    exact (proj2 (proj2 (proj1 (Forall_forall _ _) Hfresh (nth j ws dw) (nth_In _ _ Hj)))). }
+  rewrite E0. reflexivity.
+Qed.
+Print Assumptions success_content.
 
 (* ---------- crash prefixes: at no instant does a final name hold partial content ---------- *)
 Lemma only_appends_firstn names ops n : only_appends_to names ops -> only_appends_to names (firstn n ops).
@@ -585,3 +652,4 @@ Proof.
     rewrite <- Hs2s. exact Hw'.
 Qed.
 Print Assumptions crash_prefix_safe.
+
